@@ -814,7 +814,6 @@ func rpLazy(t *testing.T) {
 	}
 }
 
-func TestReplay_Collection_Len(t *testing.T)   { rpLazy(t) }
 func TestReplay_Collection_Exist(t *testing.T) { rpLazy(t) }
 
 // ---- neutral callbacks (C17) --------------------------------------------------------------------
